@@ -8,7 +8,7 @@ func init() {
 	Runners["C11"] = fileRunner(RunC11)
 	harness.Specs["C11"] = &harness.PropSpec{
 		ID: "C11", Test: "TestC11", Kind: "file", Level: "exploration",
-		Quick: 6000, Thorough: 150000,
+		Quick: 6000, Thorough: 85000,
 		Rule: "long generated histories (quick <= 60, thorough <= 300 short transactions of alloc/free/overwrite cycles, rollbacks, reopens) on bounded " +
 			"files without overflow area; after every item: capacity probe (allocate until failure in a rolled back transaction) + live pages (model) + " +
 			"FileStats.MetaArea (observer) + 2 == max pages; file extent (simulated disk high-water mark) <= max size; FileStats.DataAllocated == #live, " +
